@@ -136,7 +136,7 @@ def _best(rows, ascending):
 
 def h_drop_duplicates(env, ascending=False, index="default"):
     cm = env.module("cryomotl")
-    rows = _rows(env, 3, "a", {"subtomo_id": [1, 2], "score": [0.25, 0.5, 0.75]})
+    rows = _rows(env, 3, "a", {"subtomo_id": [1, 2], "score": [0.25, 0.5, 0.75], "tomo_id": [2, 1]})      # duplicates may sit in different tomograms
     m = _motl(env, cm, rows, index)
     m.drop_duplicates(decision_sort_ascending=ascending)
     best = _best(rows, ascending)
@@ -191,8 +191,8 @@ def h_merge_and_renumber(env, index="default", sizes=(2, 2)):
 
 def h_merge_and_drop_duplicates(env):
     cm = env.module("cryomotl")
-    r1 = _rows(env, 2, "a", {"subtomo_id": [1, 2], "score": [0.25, 0.75]})
-    r2 = _rows(env, 1, "b", {"subtomo_id": [1, 2], "score": [0.5]}, base_rid=200)
+    r1 = _rows(env, 2, "a", {"subtomo_id": [1, 2], "score": [0.25, 0.75], "tomo_id": [1, 3]})
+    r2 = _rows(env, 1, "b", {"subtomo_id": [1, 2], "score": [0.5], "tomo_id": [2]}, base_rid=200)
     for r in r1 + r2:
         r["object_id"] = 1.0
     out = cm.Motl.merge_and_drop_duplicates([_motl(env, cm, r1), _motl(env, cm, r2)])
